@@ -51,6 +51,7 @@ const (
 	KFieldGrow  = "C16-FIELD-SLICE-GROW-LOST"
 	KInt64Str   = "C16-INT64-UNROUNDED-STRING"
 	KMapMethod  = "C16-MAP-METHOD-NAME-WRITE-DROPPED"
+	KNamedKey   = "C16-MAP-NAMED-KEY-PANIC"
 )
 
 func impossible(class string, known ...string) Den {
@@ -440,6 +441,15 @@ func canonicalIntKey(s string) (string, bool) {
 }
 
 func denoteMap(v JV, t reflect.Type, path string) Den {
+	d := denoteMap0(v, t, path)
+	if t.Key().PkgPath() != "" { // a named key type: keys must be converted to it, not merely be of its kind
+		d.Known = append(d.Known, KNamedKey)
+		d.Class = "named-key>" + d.Class
+	}
+	return d
+}
+
+func denoteMap0(v JV, t reflect.Type, path string) Den {
 	et, kt := t.Elem(), t.Key()
 	d := Den{St: Exact, Class: "map:" + v.K}
 	var keys []string
